@@ -202,7 +202,15 @@ def SeqEquiv : List (Observed V) → List (Observed V) → Prop
 for the request, `c03_plan_ok`), the run returns `.ok vals` with one iff it does with the other.
 Nothing is assumed about *which* error failing runs report (`c02_error_depends_on_order` shows
 it can differ).  `fail_iff`: planning succeeds for one order of the ids iff for the other
-(C03 argument checks / `PlanOK` are permutation invariant: C26 `PlanOK_congr`). -/
+(C03 argument checks / `PlanOK` are permutation invariant: C26 `PlanOK_congr`; completeness
+`c03_complete`).
+
+`same_ok` is an *interface*: with adversarial `Ops.run` (which sees whether an operand arrives in
+`taken` or in `ins`) it can only hold if the operators satisfy the contract "in place ≡ out of
+place" and are deterministic, and if every value has one producer.  Those assumptions are stated
+separately, by name, where the hypothesis is discharged for the code's planner:
+`C25Exec.Assumptions` (`noCaptures`, `unique`, `opContract`, `wf`) and
+`C25Exec.cacheTransparent_exec` / `c25_T2_sequence_exec` (Props/C25Exec.lean). -/
 structure CacheTransparent (ops : Ops V) (g : G) (planner : List Nat → List Nat → Option (List Nat))
     (consts : Nat → V) : Prop where
   fail_iff : ∀ ins outs ins' outs', sortIds ins = sortIds ins' → sortIds outs = sortIds outs' →
@@ -415,17 +423,28 @@ theorem c25_T1_mutant_false :
       [Loc.const 0, Loc.borrowed 3] := by
   decide
 
-/-- The hypotheses of `c25_T2_sequence` are satisfiable: a planner that sorts its arguments first
-is order-insensitive. -/
-example : OrderInsensitive (fun ins outs => exPlanner (sortIds ins) (sortIds outs)) := by
+/-- A planner that sorts its arguments first is order-insensitive. -/
+theorem exPlannerSorted_orderInsensitive :
+    OrderInsensitive (fun ins outs => exPlanner (sortIds ins) (sortIds outs)) := by
   intro ins outs ins' outs' h1 h2
   simp only [h1, h2]
 
 example : CacheInv exPlanner exM.cache := cacheInv_none _
 
-/-- `CacheTransparent` (the C02 form) is satisfiable: it follows from the strong form. -/
-example (h : OrderInsensitive exPlanner) : CacheTransparent exOps exG exPlanner exM.consts :=
-  (cacheTransparentEq_of_orderInsensitive exOps exG exPlanner exM.consts h).weaken
+/-- **Closed**: `CacheTransparent` (the hypothesis of `c25_T2_sequence`) holds for this model's
+`runWith`, `exOps`, `exG` and the sorting planner — no hypotheses.  (For an order-*sensitive*
+planner — the code's — see `Props/C25Exec.lean`: `cacheTransparent_exec`,
+`exec_example_assumptions`, `exec_example_T2`.) -/
+theorem ex_cacheTransparent :
+    CacheTransparent exOps exG (fun i o => exPlanner (sortIds i) (sortIds o)) exM.consts :=
+  (cacheTransparentEq_of_orderInsensitive exOps exG _ exM.consts exPlannerSorted_orderInsensitive).weaken
+
+/-- `c25_T2_sequence` applied to a closed instance. -/
+example :
+    SeqEquiv (runSeq .code exOps exG (fun i o => exPlanner (sortIds i) (sortIds o)) exM [exQ false, exQ true])
+      ([exQ false, exQ true].map (fun q =>
+        (runReq .code exOps exG (fun i o => exPlanner (sortIds i) (sortIds o)) exM q).1)) :=
+  c25_T2_sequence exOps exG _ [exQ false, exQ true] exM ex_cacheTransparent (cacheInv_none _)
 
 end Examples
 
